@@ -22,6 +22,7 @@ EXTENDS Integers, Sequences, FiniteSets, TLC, Json
 CONSTANTS NoteAfterBraceToLast, NoteBeforeValueToPrev, Export, MaxAnn      \* MaxAnn: at most so many annotations in one layout
 
 Lit(i) == [id |-> i, k |-> "lit", kids |-> <<>>]
+Ref(i) == [id |-> i, k |-> "ref", kids |-> <<>>]                  \* a type shortcut  @t  as a value
 Obj(i, kids) == [id |-> i, k |-> "obj", kids |-> kids]
 Arr(i, kids) == [id |-> i, k |-> "arr", kids |-> kids]
 \* ids are the positions in source order (the order GetAST lists the nodes in)
@@ -31,14 +32,16 @@ Shapes == << Obj(1, <<Lit(2), Lit(3)>>),                          \* {"k2": 1, "
              Arr(1, <<Lit(2), Obj(3, <<Lit(4)>>)>>),              \* [1, {"k4": 1}]
              Arr(1, <<Arr(2, <<Lit(3)>>), Lit(4)>>),              \* [[1], 1]
              Lit(1),
-             Obj(1, <<Obj(2, <<>>), Arr(3, <<>>)>>) >>            \* {"k2": {}, "k3": []}
+             Obj(1, <<Obj(2, <<>>), Arr(3, <<>>)>>),              \* {"k2": {}, "k3": []}
+             Obj(1, <<Ref(2), Arr(3, <<Ref(4)>>), Lit(5)>>) >>    \* {"k2": @t, "k3": [@t], "k5": 1}
 RECURSIVE Size(_)
 Size(n) == 1 + (IF n.kids = <<>> THEN 0 ELSE LET RECURSIVE Sum(_) Sum(i) == IF i = 0 THEN 0 ELSE Size(n.kids[i]) + Sum(i - 1) IN Sum(Len(n.kids)))
 RECURSIVE NodeOf(_, _)
 NodeOf(n, i) == IF n.id = i THEN n
                 ELSE LET c == CHOOSE j \in DOMAIN n.kids : n.kids[j].id <= i /\ (j = Len(n.kids) \/ n.kids[j + 1].id > i) IN NodeOf(n.kids[c], i)
-Empty(n) == n.k # "lit" /\ n.kids = <<>>
-Multi(n) == n.k # "lit" /\ n.kids # <<>>
+Scalar(n) == n.k \in {"lit", "ref"}
+Empty(n) == ~Scalar(n) /\ n.kids = <<>>
+Multi(n) == ~Scalar(n) /\ n.kids # <<>>
 
 \* ---- a layout: per node, what stands in its slots ----
 \* open / val / close : "none" | "note" | "rules"      (val: after a scalar or an empty container; open, close: non-empty containers)
@@ -79,7 +82,7 @@ Toks(root, n, last, inline, L) ==
       Kids(j, inl) == IF j > Len(n.kids) THEN <<>> ELSE kid(j, inl) \o Kids(j + 1, inl)
       ob == IF n.k = "obj" THEN "ob" ELSE "ab"
       cb == IF n.k = "obj" THEN "oe" ELSE "ae"
-  IN CASE n.k = "lit" -> <<T("lit", n.id)>> \o comma \o eol(l.val, "val")
+  IN CASE Scalar(n)   -> <<T(n.k, n.id)>> \o comma \o eol(l.val, "val")
        [] Empty(n)    -> <<T(ob, n.id), T(cb, n.id)>> \o comma \o eol(l.val, "val")
        [] l.one \/ inline -> <<T(ob, n.id)>> \o Kids(1, TRUE) \o <<T(cb, n.id)>> \o comma \o eol(l.close, "close")
        [] OTHER       -> <<T(ob, n.id)>> \o AnnT(l.open, n.id, "open") \o <<T("nl", 0)>> \o Kids(1, FALSE) \o <<T(cb, n.id)>> \o comma \o eol(l.close, "close")
@@ -89,6 +92,7 @@ NoteText(id, slot) == "n" \o ToString(id) \o slot
 Piece(form, tk) ==
   CASE tk.t = "key"   -> "\"k" \o ToString(tk.id) \o "\": "
     [] tk.t = "lit"   -> "1"
+    [] tk.t = "ref"   -> "@t"
     [] tk.t = "ob"    -> "{"
     [] tk.t = "oe"    -> "}"
     [] tk.t = "ab"    -> "["
@@ -106,7 +110,7 @@ RECURSIVE TextH(_, _, _, _)
 TextH(form, hash, ts, i) == IF i > Len(ts) THEN "" ELSE Hash(hash, ts, i) \o Piece(form, ts[i]) \o TextH(form, hash, ts, i + 1)
 
 \* ---- layer R ----
-Begins(tk) == tk.t \in {"ob", "ab", "lit"}
+Begins(tk) == tk.t \in {"ob", "ab", "lit", "ref"}
 RECURSIVE LineStart(_, _)
 LineStart(ts, i) == IF i = 1 \/ ts[i - 1].t = "nl" THEN i ELSE LineStart(ts, i - 1)
 NodesOnLine(ts, i) == Cardinality({j \in LineStart(ts, i)..i : Begins(ts[j])})        \* an annotation ends its line: what stands before it
@@ -132,10 +136,10 @@ IStep(root, s, tk) ==
   IF s.err # "ok" THEN s
   ELSE CASE tk.t = "nl"  -> [s EXCEPT !.count = 0, !.allow = TRUE]
          [] tk.t = "key" -> [s EXCEPT !.keyp = TRUE, !.allow = TRUE]
-         [] tk.t \in {"ob", "ab", "lit"} ->
+         [] tk.t \in {"ob", "ab", "lit", "ref"} ->
               LET s1 == [s EXCEPT !.count = @ + 1, !.last = tk.id, !.allow = TRUE, !.keyp = FALSE, !.pend = "",
                                   !.note = IF s.pend # "" THEN [@ EXCEPT ![tk.id] = s.pend] ELSE @] IN
-              IF tk.t = "lit" THEN s1 ELSE [s1 EXCEPT !.stack = Append(@, tk.id)]
+              IF tk.t \in {"lit", "ref"} THEN s1 ELSE [s1 EXCEPT !.stack = Append(@, tk.id)]
          [] tk.t = "oe"  -> [s EXCEPT !.stack = SubSeq(@, 1, Len(@) - 1), !.last = IF NoteAfterBraceToLast THEN @ ELSE tk.id]
          [] tk.t = "ae"  -> [s EXCEPT !.stack = SubSeq(@, 1, Len(@) - 1), !.allow = NodeOf(root, tk.id).kids = <<>>]
          [] tk.t = "comma" -> s
